@@ -273,6 +273,7 @@ impl<B: SimField, H: ElementHasher<BaseField = B> + Send + Sync + 'static> Base 
             AcceptableOptions::OptionSet(vec![self.case.options.clone()]),
         ];
         let nonce_pair = if only_nonce_differs { Some((self.proof.pow_nonce, proof.pow_nonce)) } else { None };
+        let modified = if only_nonce_differs { Some(proof.clone()) } else { None };
         let (v, u2) = metered(|| verify_with::<B, H, DefaultRandomCoin<H>>(proof, ins, &policies[policy % 3]));
         // A proof that differs from the accepted original in the nonce only and is accepted: either
         // the other nonce happens to meet the proof-of-work bound and to select the same set of
@@ -288,6 +289,20 @@ impl<B: SimField, H: ElementHasher<BaseField = B> + Send + Sync + 'static> Base 
             if crate::coin::take_alias_probe() == Some(true) {
                 ctx.event_with("alias", n0 ^ n1, || format!("the coin gives identical outputs for the nonces {n0} and {n1}"));
                 only_nonce_differs = false; // not "another valid nonce": the two are not told apart
+            }
+            // ... or the verifier does not consume the proof's nonce at all: the positions must
+            // have been asked for under the nonce the MODIFIED proof carries
+            if let Some(m) = modified {
+                crate::coin::clear_log();
+                let _ = verify_with::<B, H, crate::coin::RecordingCoin<H>>(m, self.case.inputs.clone(), &min_sec0());
+                let used: Vec<u64> = crate::coin::take_log()
+                    .iter()
+                    .filter_map(|op| if let crate::coin::CoinOp::Integers { nonce, .. } = op { Some(*nonce) } else { None })
+                    .collect();
+                if !used.is_empty() && !used.contains(&n1) {
+                    ctx.event_with("nonce-unused", n1, || format!("the modified proof carries nonce {n1}, the verifier drew the positions under {:?}", used));
+                    only_nonce_differs = false;
+                }
             }
         }
         Delivered {
